@@ -446,7 +446,23 @@ def _row_selector(tab):
     if found is None:
         return None
     e, ax, tr = found
+    if _transposed_after_selection(tab):
+        return None
     return e if (ax == 1 and tr) or (ax == 0 and not tr) else None
+
+
+def _transposed_after_selection(tab) -> bool:
+    """`TABLE[key][sel].T`: the rows are selected by an index array shaped like the input and the result is transposed afterwards.  `.T` reverses
+    ALL axes, so the point axes come out reversed for inputs of rank >= 2 (TABLE[key].T[:, sel] keeps them: the 2-d table is transposed first)."""
+    seen_sel = False
+    for s in tab.args[2:]:
+        if s == TSEL:
+            if seen_sel:
+                return True
+            continue
+        if isinstance(s, sp.Tuple) and any(e not in (COLON, NONE, DOTS) for e in s):
+            seen_sel = True
+    return False
 
 
 def r19_2(chk: Check, tabs: dict) -> None:
@@ -468,6 +484,13 @@ def r19_2(chk: Check, tabs: dict) -> None:
             for st in sts:
                 if not st.ok:
                     raise Undecided(f"helpers.derivative(n={n}, order={order}): {st.why}")
+                for tab in _tabs(st.pos) + _tabs(st.coeff):
+                    if _transposed_after_selection(tab):
+                        chk.ob("R19.3", W, f"{kind} order {key}: the stencil rows are looked up so that the stencil axis comes first and the axes of the "
+                               "input keep their order, for inputs of every rank", False,
+                               f"`{_tabname(tab)}[...][rows].T` transposes after the selection by an input-shaped index: the point axes are reversed for rank >= 2",
+                               key=f"lookup-axes|{kind}|{key}|{_tabname(tab)}")
+                        return
                 for tab in _tabs(st.pos):
                     sels.add(_row_selector(tab))
             if len(sels) != 1 or None in sels:
